@@ -60,7 +60,7 @@ Proof.
   destruct (wrap32_decomp (a - p)) as [k1 E1].
   destruct (wrap32_decomp (p + c)) as [k2 E2].
   pose proof (wrap32_bounds (a - p)).
-  apply wrap32_unique with (k := k1 - k2); lia.
+  apply wrap32_unique with (k := k1 + k2); lia.
 Qed.
 
 Lemma sdelta_done a p :
@@ -69,7 +69,7 @@ Lemma sdelta_done a p :
 Proof.
   intros Ha.
   destruct (wrap32_decomp (a - p)) as [k1 E1].
-  apply wrap32_unique with (k := k1); lia.
+  apply wrap32_unique with (k := - k1); lia.
 Qed.
 
 Lemma udelta_rest a p c :
@@ -80,7 +80,7 @@ Proof.
   destruct (wrapu32_decomp (a - p)) as [k1 E1].
   destruct (wrapu32_decomp (p + c)) as [k2 E2].
   pose proof (wrapu32_bounds (a - p)).
-  apply wrapu32_unique with (k := k1 - k2); lia.
+  apply wrapu32_unique with (k := k1 + k2); lia.
 Qed.
 
 Lemma udelta_done a p :
@@ -89,7 +89,7 @@ Lemma udelta_done a p :
 Proof.
   intros Ha.
   destruct (wrapu32_decomp (a - p)) as [k1 E1].
-  apply wrapu32_unique with (k := k1); lia.
+  apply wrapu32_unique with (k := - k1); lia.
 Qed.
 
 (* non-decreasing pc, both uint32: the difference does not wrap *)
